@@ -58,7 +58,6 @@ def logText (log : List Access) : String :=
 
 def showStop : Stop → String
   | .abort a => toString a
-  | .mmio off w => s!"mmio {hexBV off} {w.toNat}"
   | .unmodelled k => s!"unmodelled {k}"
 
 def flatIndex (name : String) : Option Nat :=
@@ -69,7 +68,7 @@ def interpStep (c : Core) (args : List String) : Core × String :=
   | ["new"] => ({}, "ok")
   | ["gen", seed] =>
     match parseHex seed with
-    | some seed => ({ regs := genRegs seed, mem := { bg := some seed } }, "ok")
+    | some seed => ({ regs := genRegs seed, bus := { mem := { bg := some seed } } }, "ok")
     | none => (c, "bad-op")
   | "set" :: rest =>
     match parseAll rest with
@@ -81,11 +80,11 @@ def interpStep (c : Core) (args : List String) : Core × String :=
     | _, _ => (c, "bad-op")
   | ["mem", wa, v] =>
     match parseHex wa, parseHex v with
-    | some wa, some v => ({ c with mem := c.mem.write wa (.ofNat 16 v) }, "ok")
+    | some wa, some v => ({ c with bus := { c.bus with mem := c.bus.mem.write wa (.ofNat 16 v) } }, "ok")
     | _, _ => (c, "bad-op")
   | ["peek", wa] =>
     match parseHex wa with
-    | some wa => (c, hexBV (c.mem.read wa))
+    | some wa => (c, hexBV (c.bus.mem.read wa))
     | none => (c, "bad-op")
   | ["dump"] => (c, dumpAll c.regs)
   | [op, opc, exp] =>
@@ -93,9 +92,9 @@ def interpStep (c : Core) (args : List String) : Core × String :=
     match parseHex opc, parseHex exp with
     | some opc, some exp =>
       let pc := c.regs.pc.toNat ||| (c.regs.prpage.toNat <<< 18)
-      let mem := if pc + 1 < 0x40000 then (c.mem.write pc (.ofNat 16 opc)).write (pc + 1) (.ofNat 16 exp) else c.mem
-      let c0 := { c with mem := mem, log := [] }
-      match (cycle.run c0 : Except Stop (Unit × Core)) with
+      let mem := if pc + 1 < 0x40000 then (c.bus.mem.write pc (.ofNat 16 opc)).write (pc + 1) (.ofNat 16 exp) else c.bus.mem
+      let c0 := { c with bus := { c.bus with mem := mem }, log := [], events := [] }
+      match (cycleTick.run c0 : Except Stop (Unit × Core)) with
       | .ok (_, c') =>
         if op == "stepv" then (c', s!"ok {dumpAll c'.regs} | {logText c'.log}")
         else (c', s!"ok {hex (regDigest c'.regs)} {hex (logDigest c'.log)} {hex c'.log.length}")
